@@ -101,6 +101,9 @@ def build_records(tier, rng):
     D, E, C = [], [], []
     texts = []
     for line in case_lines(tier, rng):
+        # TLC integers are 32 bit: fields with more than 9 digits are not representable in the specification
+        if any(sum(1 for ch in f if ch in "0123456789u") > 9 for f in "".join(x if x != "s" else ";" for x in line).split(";")):
+            continue
         conc = Conc(rng)
         text = conc.text(line)
         try:
